@@ -269,6 +269,8 @@ def mc_machine(ck, slice_, maxlen, maxsteps, maxdigits=2, dump=True, timeout=240
     ck.add_tlc(r)
     ck.cov["vacuity"]["MC_HyMachine_%s_states" % slice_] = r.distinct
     ck.cov["vacuity"]["MC_HyMachine_%s_behaviours" % slice_] = n[0]
+    # (TLC's -coverage instruments every sub-expression and makes the recursive arithmetic ~100x slower,
+    #  so per-kind action counts are not collected here; the kinds executed are counted from the replayed traces)
     return cases, n[0]
 
 
